@@ -4,7 +4,7 @@ import ast
 from .. import AnalysisError
 from ..effects import is_cancel_call, is_resolve, is_deq_send, is_spawn, strip_epoch, is_gone, gone_key
 from ..index import walk_local, ClassInfo
-from ..interp import fmt_term
+from ..interp import const,  fmt_term
 from . import COMMON_ASSUMPTIONS
 from .handlers import model, H_TERM
 from .c07 import init_bools
@@ -556,5 +556,55 @@ def _mentions(term, sub) -> bool:
     return False
 
 
+def rule_h(ctx, rule='C11.h'):
+    """The client's reconnect listener is the last thing that runs when the application closes the client; requests
+    issued after the connection was lost (no receiver left to fail them) are failed only here."""
+    rep = ctx.report
+    slots = ctx.slots
+    f = slots.RSocketClient.lookup('_reconnect_listener')
+    if f is None:
+        raise AnalysisError('%s: RSocketClient._reconnect_listener vanished' % rule)
+    ps = ctx.paths(f, slots.RSocketClient, exc=('app', 'cancel', 'transport'),
+                   no_inline={'_close', 'connect', 'stop_all_streams', 'wait', 'clear'}, max_paths=4000)
+    by = {}
+    for p in ps:
+        if p.outcome == 'cut':
+            continue
+        raises = [e for e in p.events if e.kind == 'raise' and e.data.get('implicit')]
+        how = raises[0].data['implicit'] if raises else 'normal'
+        stops = [e for e in p.events if e.kind == 'call' and e.data.get('name') == 'stop_all_streams' and
+                 (not raises or e.seq > raises[0].seq)]
+        by.setdefault(how, []).append(bool(stops))
+    if 'cancel' not in by:
+        raise AnalysisError('%s: no path where the reconnect listener is cancelled' % rule)
+    for how in sorted(by):
+        ok = all(by[how])
+        rep.add(rule, 'RSocketClient._reconnect_listener / ends by %s' % how, f, ok,
+                'every stream still registered is failed (stop_all_streams) on all %d such paths' % len(by[how])
+                if ok else 'the listener can end by %s without failing the streams still registered: a request issued '
+                           'on a client whose connection was lost stays pending after close()' % how)
+    # close() reaches the listener: the task attribute holding it is cancelled when not reconnecting
+    cl = slots.RSocketClient.lookup('_close')
+    ok = False
+    if cl is not None:
+        for q in ctx.paths(cl, slots.RSocketClient, args={'reconnect': const(False)}, inline_depth=1,
+                           no_inline={'close'}):
+            for e in q.events:
+                if e.kind == 'call' and e.data.get('name') in ('cancel_if_task_exists', 'cancel') and \
+                        '_reconnect_task' in repr([a.term for a in e.data.get('args', [])] +
+                                                  [e.data['recv'].term if e.data.get('recv') is not None else None]):
+                    ok = True
+    rep.add(rule, 'RSocketClient.close / cancels the reconnect listener', cl or f, ok,
+            'close() cancels the listener task, whose exit fails the registered streams' if ok else
+            'close() does not cancel the reconnect listener')
+
+
+def rule_plumbing(ctx):
+    from . import plumbing
+    plumbing.rule_fail_unsent(ctx, 'C11.g')
+    plumbing.rule_close_transport(ctx, 'C11.e')
+    plumbing.rule_sender_hooks(ctx, 'C11.e')
+
+
 RULES = [('C11.a', rule_a), ('C11.b', rule_b), ('C11.c', rule_c), ('C11.d', rule_d), ('C11.e', rule_e),
-         ('C11.f', rule_f), ('C11.g', rule_g)]
+         ('C11.f', rule_f), ('C11.g', rule_g), ('C11.h', rule_h), ('C11.g+C11.e', rule_plumbing)]
